@@ -49,7 +49,7 @@ def cases(tier, seed):
         for meth in methods + [None]:
             for copy in (True, False):
                 for trainable in (False, True):
-                    yield {"kind": "transfer", "model": name, "method": meth, "copy": copy, "trainable": trainable, "L": L}
+                    yield {"kind": "transfer", "model": name, "method": meth, "copy": copy, "trainable": trainable, "L": L + 1}
 
 
 def _cb(X):
@@ -132,6 +132,8 @@ def run_case(case):
         param_key = {"learner": "model__", "stacking": "models_%d__model__" % (len(names) - 1)}[case["kind"]]
         pk, pv = M[names[-1]][2]
         ops = [("fit", 0), ("fit", 1), ("transform",), ("set", param_key + pk, pv), ("clone",)]
+        if case["kind"] == "learner":
+            ops.append(("setmodel",))
         if case["kind"] == "learner" and isinstance(meth, str):
             alt = [a for a in M[names[0]][1] if a != meth]
             if alt:
@@ -164,6 +166,9 @@ def run_case(case):
                             if r is not w:
                                 bad("fit does not return self", "fit", hdesc)
                             last = op[1]
+                        elif op[0] == "setmodel":
+                            w.set_params(model=M[names[0]][0]())     # a new, unfitted model of the same kind
+                            last = None
                         elif op[0] == "set":
                             w.set_params(**{op[1]: op[2]})
                             last = last  # the new parameter applies to the next fit only
@@ -185,7 +190,7 @@ def run_case(case):
                 lastfit = max(i for i, h in enumerate(hist) if h[0] == "fit")
                 if any(h[0] in ("set",) for h in hist[lastfit + 1:]) and any(h[1] != "method" for h in hist[lastfit + 1:] if h[0] == "set"):
                     continue
-                if any(h[0] == "clone" for h in hist[lastfit + 1:]):
+                if any(h[0] in ("clone", "setmodel") for h in hist[lastfit + 1:]):
                     continue
                 d = D[hist[lastfit][1]]
                 try:
@@ -208,11 +213,14 @@ def run_case(case):
                                                    numpy.array2string(exp.ravel()[:6], precision=5), hdesc))
     else:
         name, meth = case["model"], case["method"]
-        ops = [("fit", 0), ("fit", 1), ("transform",)]
+        # "retrain": the user re-trains the ORIGINAL estimator object in place, outside the wrapper
+        ops = [("fit", 0), ("fit", 1), ("transform",), ("retrain", 1)]
         resolved = meth
         for depth in range(1, L + 1):
             for hist in itertools.product(ops, repeat=depth):
-                if not any(h[0] == "fit" for h in hist):
+                if not any(h[0] == "fit" for h in hist) or hist[-1][0] != "transform":
+                    continue
+                if sum(1 for h in hist if h[0] == "retrain") > 1:
                     continue
                 cnt += 1
                 hdesc = "estimator=%s method=%r copy_estimator=%s trainable=%s history=%r" % (name, meth, case["copy"], case["trainable"], list(hist))
@@ -221,42 +229,62 @@ def run_case(case):
                     resolved = ("transform" if hasattr(base, "transform") else "predict_proba" if hasattr(base, "predict_proba")
                                 else "decision_function" if hasattr(base, "decision_function") else "predict")
                 snap = pickle.dumps(base)
-                base_out = getattr(base, resolved)(P)
                 try:
                     tt = TransferTransformer(base, method=meth, copy_estimator=case["copy"], trainable=case["trainable"])
                 except Exception as ex:
                     bad("constructor raises %s" % type(ex).__name__, "make", "%s %s" % (str(ex)[:200], hdesc))
                     break
                 fitted = False
+                snap_at_fit = None
                 lastfit = None
+                user_touched = False
                 for op in hist:
                     trans += 1
                     try:
+                        if op[0] == "retrain":
+                            base.fit(D[op[1]]["X"], yfor(name, D[op[1]]))
+                            snap = pickle.dumps(base)
+                            user_touched = True
+                            continue
                         if op[0] == "fit":
                             d = D[op[1]]
+                            snap_at_fit = pickle.dumps(base)      # what the wrapper is given at this fit
                             r = tt.fit(d["X"], yfor(name, d))
                             if r is not tt:
                                 bad("fit does not return self", "fit", hdesc)
                             fitted = True
                             lastfit = op[1]
+                            if case["copy"] or not case["trainable"]:
+                                if pickle.dumps(base) != snap_at_fit:
+                                    bad("the original estimator was modified", "copy_estimator=%s,trainable=%s" % (case["copy"], case["trainable"]), hdesc)
+                                    break
+                            snap = pickle.dumps(base)
                         elif fitted:
                             got = numpy.asarray(tt.transform(P))
                             ntriv += 1
                             inner = numpy.asarray(getattr(tt.estimator_, resolved)(P))
                             if not numpy.array_equal(got, inner):
                                 bad("transform is not the wrapped estimator's output", "method=%s" % resolved, hdesc)
-                            if not case["trainable"] and not numpy.array_equal(got, base_out):
-                                bad("frozen estimator's predictions changed by fit", "copy_estimator=%s" % case["copy"], hdesc)
+                            # reference: the estimator as it was when the wrapper was last fitted (copy) / as it is now (no copy),
+                            # re-trained on the wrapper's last training set when trainable
+                            if case["copy"]:
+                                ref = pickle.loads(snap_at_fit)
+                            else:
+                                ref = pickle.loads(pickle.dumps(base)) if not case["trainable"] else pickle.loads(snap_at_fit)
                             if case["trainable"]:
-                                ref = pickle.loads(snap).fit(D[lastfit]["X"], yfor(name, D[lastfit]))
-                                if not numpy.array_equal(got, numpy.asarray(getattr(ref, resolved)(P))):
-                                    bad("trainable estimator is not trained as a direct fit would", "copy_estimator=%s" % case["copy"], hdesc)
+                                if not case["copy"] and user_touched and hist.index(("retrain", 1)) > max(i for i, h in enumerate(hist) if h[0] == "fit"):
+                                    continue   # the user re-trained the shared object after the wrapper: no single reference
+                                ref = ref.fit(D[lastfit]["X"], yfor(name, D[lastfit]))
+                            exp = numpy.asarray(getattr(ref, resolved)(P))
+                            if not numpy.array_equal(got, exp):
+                                bad("transform is not the output of the estimator the wrapper was last given"
+                                    if not case["trainable"] else "trainable estimator is not trained as a direct fit would",
+                                    "copy_estimator=%s%s" % (case["copy"], ",after the original was re-trained" if user_touched else ""), hdesc)
                     except Exception as ex:
                         bad("%s raises %s" % (op[0], type(ex).__name__), "history", "%s %s" % (str(ex)[:200], hdesc))
                         break
-                    if case["copy"] or not case["trainable"]:
-                        if pickle.dumps(base) != snap or not numpy.array_equal(getattr(base, resolved)(P), base_out):
-                            bad("the original estimator was modified", "copy_estimator=%s,trainable=%s" % (case["copy"], case["trainable"]), hdesc)
-                            break
+                    if (case["copy"] or not case["trainable"]) and pickle.dumps(base) != snap:
+                        bad("the original estimator was modified", "copy_estimator=%s,trainable=%s" % (case["copy"], case["trainable"]), hdesc)
+                        break
     return {"viol": viol, "nontrivial": ntriv > 0, "states": cnt, "transitions": trans,
             "outcome": (case["kind"], case.get("model") or tuple(case.get("models", [])), case.get("method"))}
